@@ -437,34 +437,34 @@ Section Structure.
       destruct (getitem_slice m s); [|discriminate]. inversion H; subst. now rewrite nth_error_app1.
     - destruct (nth_error st a), (nth_error st b); try discriminate. inversion H; subst.
       now rewrite nth_error_app1.
-    - destruct (Nat.eqb a b); [discriminate|].
-      destruct (nth_error st a) eqn:E, (nth_error st b); try discriminate. inversion H; subst.
+    - destruct (nth_error st a) eqn:E, (nth_error st b); try discriminate. inversion H; subst.
       apply upd_other; [apply nth_error_Some; congruence|congruence].
-    - destruct (Nat.eqb a b); [discriminate|].
-      destruct (nth_error st a) eqn:E, (nth_error st b); try discriminate. inversion H; subst.
+    - destruct (nth_error st a) eqn:E, (nth_error st b); try discriminate. inversion H; subst.
       apply upd_other; [apply nth_error_Some; congruence|congruence].
   Qed.
 
-  (* the monitor PASSED to +, extend, prepend, [slice] is exactly what it was *)
+  (* the monitor PASSED to +, extend, prepend, [slice] is exactly what it was (for extend/prepend: when it
+     is another monitor than the one being extended -- a.extend(a) is meant to change a) *)
   Lemma argument_unchanged (st st' : store) (a b : nat) (s : pyslice) :
     (step st (OAdd a b) = Some st' -> nth_error st' a = nth_error st a /\ nth_error st' b = nth_error st b) /\
-    (step st (OExtend a b) = Some st' -> nth_error st' b = nth_error st b) /\
-    (step st (OPrepend a b) = Some st' -> nth_error st' b = nth_error st b) /\
+    (a <> b -> step st (OExtend a b) = Some st' -> nth_error st' b = nth_error st b) /\
+    (a <> b -> step st (OPrepend a b) = Some st' -> nth_error st' b = nth_error st b) /\
     (step st (OSlice a s) = Some st' -> nth_error st' a = nth_error st a).
   Proof.
-    split; [|split; [|split]]; intro H; pose proof H as H'; cbn [step] in H.
-    - destruct (nth_error st a) eqn:Ea, (nth_error st b) eqn:Eb; try discriminate.
+    split; [|split; [|split]].
+    - intro H; pose proof H as H'; cbn [step] in H.
+      destruct (nth_error st a) eqn:Ea, (nth_error st b) eqn:Eb; try discriminate.
       rewrite <- Ea, <- Eb.
       split; (eapply step_untouched; [exact H'| |cbn; discriminate]); apply nth_error_Some; congruence.
-    - destruct (Nat.eqb a b) eqn:E; [discriminate|]. apply Nat.eqb_neq in E.
+    - intros E H; pose proof H as H'; cbn [step] in H.
       destruct (nth_error st a) eqn:Ea, (nth_error st b) eqn:Eb; try discriminate.
       rewrite <- Eb. eapply step_untouched; [exact H'| |cbn; congruence].
       apply nth_error_Some; congruence.
-    - destruct (Nat.eqb a b) eqn:E; [discriminate|]. apply Nat.eqb_neq in E.
+    - intros E H; pose proof H as H'; cbn [step] in H.
       destruct (nth_error st a) eqn:Ea, (nth_error st b) eqn:Eb; try discriminate.
       rewrite <- Eb. eapply step_untouched; [exact H'| |cbn; congruence].
       apply nth_error_Some; congruence.
-    - destruct (nth_error st a) eqn:Ea; [|discriminate].
+    - intro H; pose proof H as H'; cbn [step] in H. destruct (nth_error st a) eqn:Ea; [|discriminate].
       rewrite <- Ea. eapply step_untouched; [exact H'| |cbn; discriminate].
       apply nth_error_Some; congruence.
   Qed.
@@ -479,8 +479,8 @@ Section Structure.
     intros Ea Eb. assert (La : a < length st) by (apply nth_error_Some; congruence).
     repeat split; cbn [step]; rewrite ?Ea, ?Eb.
     - intro H; inversion H; subst. rewrite nth_error_app2, Nat.sub_diag by lia. reflexivity.
-    - destruct (Nat.eqb a b); [discriminate|]. intro H; inversion H; subst. now apply upd_same.
-    - destruct (Nat.eqb a b); [discriminate|]. intro H; inversion H; subst. now apply upd_same.
+    - intro H; inversion H; subst. now apply upd_same.
+    - intro H; inversion H; subst. now apply upd_same.
   Qed.
 
   (* failing operations leave the store as it was *)
@@ -596,33 +596,30 @@ Section Costs.
     get_id m = get_id b ++ get_id a /\ minfo m = minfo b ++ minfo a /\ mk m = mk a.
   Proof. intros Ha Hb. cbv zeta. rewrite prepend_y by auto. repeat split. Qed.
 
-  (* ---- write_support_file / write_converge_file: k is applied twice ---- *)
+  (* a monitor combined with itself: contents doubled *)
+  Lemma self_combination (m : monitor) :
+    knz (mk m) ->
+    (get_x (extend m m) = get_x m ++ get_x m /\ get_y (extend m m) = get_y m ++ get_y m /\
+     get_id (extend m m) = get_id m ++ get_id m /\ minfo (extend m m) = minfo m ++ minfo m) /\
+    (get_x (prepend m m) = get_x m ++ get_x m /\ get_y (prepend m m) = get_y m ++ get_y m /\
+     get_id (prepend m m) = get_id m ++ get_id m /\ minfo (prepend m m) = minfo m ++ minfo m).
+  Proof.
+    intro H. destruct (extend_is_concat m m H H) as (A & B & C & D & _).
+    destruct (prepend_is_concat m m H H) as (A' & B' & C' & D' & _). repeat split; assumption.
+  Qed.
+
+  (* ---- cost column of the parameter files: the recorded costs (k transparent) ---- *)
   Lemma raw_file_cost_ok (k : option R) (rs : list (record NumR X I)) :
     knz k -> raw_file_cost (call_all (new_monitor NumR X I M k) rs) = map rec_y rs.
   Proof. apply get_y_calls. Qed.
-  Lemma support_file_cost_spec (k : option R) (rs : list (record NumR X I)) :
-    knz k ->
-    support_file_cost (call_all (new_monitor NumR X I M k) rs) =
-    map (fun r => unscaleR k (rec_y r)) rs.
+  Lemma support_file_cost_any (m : monitor) : knz (mk m) -> support_file_cost m = get_y m.
   Proof.
-    intro Hk. unfold support_file_cost. rewrite get_y_calls by auto.
-    unfold get_y. cbn [my mk]. rewrite call_all_mk. cbn [new_monitor mk]. now rewrite map_map.
+    intro Hk. unfold support_file_cost, write_monitor_y. unfold get_y at 1. cbn [my mk].
+    rewrite map_map. erewrite map_ext; [apply map_id|]. intro c. now apply unscale_scale.
   Qed.
-  Lemma support_file_cost_partial (k : option R) (rs : list (record NumR X I)) :
-    k = None \/ k = Some 1 ->
-    support_file_cost (call_all (new_monitor NumR X I M k) rs) = map rec_y rs.
+  Lemma support_file_cost_ok (k : option R) (rs : list (record NumR X I)) :
+    knz k -> support_file_cost (call_all (new_monitor NumR X I M k) rs) = map rec_y rs.
   Proof.
-    intro H. rewrite support_file_cost_spec by (destruct H; subst; cbn; auto; lra).
-    apply map_ext. intro r. destruct H; subst; cbn [unscale]; auto.
-    apply cmap_id. intro v. cbn. field.
+    intro Hk. rewrite support_file_cost_any by (now rewrite call_all_mk). now apply get_y_calls.
   Qed.
 End Costs.
-
-Lemma support_file_cost_refuted :
-  exists (k : option R) (rs : list (record NumR unit unit)),
-    knz k /\
-    support_file_cost (call_all (new_monitor NumR unit unit unit k) rs) <> map rec_y rs.
-Proof.
-  exists (Some (-1)%R), [(tt, CS (N:=NumR) 1%R, None)]. split; [cbn; lra|].
-  rewrite support_file_cost_spec by (cbn; lra). cbn. intro H. inversion H. lra.
-Qed.
